@@ -20,6 +20,8 @@ What is read off the source (fail closed: anything outside the whitelisted shape
       - handle_function: the method name whose body is visited for instance attributes (`function.name == "__init__"`).
   * extensions/base.py: class Extensions has exactly __init__ / add / call with the shapes of Model/C01_ext.v (a list, append,
     dispatch to every extension registered at that moment in registration order).
+  * loader.py: GriffeLoader._visit_module reads the file and stores its lines in the lines collection unconditionally
+    (Model/C01_lines.v: the last store wins).
   * agents/nodes/ast.py: `ast_kind` (lower-cased class name) and `ast_children` (fields in `_fields` order; shape checks).
   * agents/nodes/assignments.py: the node types `get_name` accepts (`_node_name_map` keys, with the shapes of the two
     name builders), the node types `get_names` accepts (`_node_names_map`), and `get_instance_names` (prefix "self.",
@@ -366,6 +368,18 @@ def tables() -> dict:
         raise TranslatorError(f"Extensions: methods {sorted(em)} (the model knows __init__, add, call)")
     for mname_ in ("__init__", "add", "call"):
         _same_shape(em[mname_], "Extensions." + mname_, "Extensions." + mname_)
+    # the lines collection (Model/C01_lines.v): a static load stores the text it has just read, unconditionally
+    ld = ast.parse((REPO / "src/_griffe/loader.py").read_text())
+    lcls = [n for n in ld.body if isinstance(n, ast.ClassDef) and n.name == "GriffeLoader"]
+    vm = [n for c in lcls for n in c.body if isinstance(n, ast.FunctionDef) and n.name == "_visit_module"]
+    if len(vm) != 1:
+        raise TranslatorError("loader.py: GriffeLoader._visit_module not found")
+    want = ["code = module_path.read_text(encoding='utf8')",
+            "if self.store_source:\n    self.lines_collection[module_path] = code.splitlines(keepends=False)"]
+    got = [ast.unparse(st) for st in _strip_doc(vm[0].body)[:2]]
+    if got != want:
+        raise TranslatorError("GriffeLoader._visit_module no longer reads the file and stores its lines unconditionally "
+                              "(`self.lines_collection[module_path] = code.splitlines(keepends=False)` under `if self.store_source`):\n" + "\n".join(got))
     return {"handlers": handlers, "missing": missing, "cond_kinds": cond_kinds, "guard_kinds": guard_kinds, "tests": tests, "neg_tests": neg_tests,
             "init_name": inits[0], "all_call": all_call, "name_map": [(c, builders[f]) for c, f in name_map], "names_kinds": [c for c, _f in names_map]}
 
